@@ -1019,7 +1019,7 @@ func runFillConc(rep *vh.Report, env vh.Env, i int) {
 			if tot != last {
 				last, lastChange = tot, time.Now()
 			}
-			if worst > postStopAllowance || time.Since(lastChange) >= 4*ttl || time.Since(t0) > 40*ttl {
+			if worst > postStopAllowance || time.Since(lastChange) >= 4*ttl || time.Since(t0) > 3*time.Second {
 				break
 			}
 			time.Sleep(ttl / 2)
@@ -1040,7 +1040,7 @@ func runFillConc(rep *vh.Report, env vh.Env, i int) {
 						after = append(after, l)
 					}
 				}
-				c.Detail = map[string]interface{}{"stop_returned_at": stopRet, "fills_begun_after_stop": after, "calls": run.opsSnapshot()}
+				c.Detail = map[string]interface{}{"stop_returned_at": stopRet, "stop_wall_us": int64(time.Since(d.t0) / time.Microsecond), "fills_begun_after_stop": after, "calls": run.opsSnapshot()}
 				rep.Violate(stream, i, "fc: refresh-loop-keeps-filling-after-stop", fmt.Sprintf("%d periodic fills of one group began after Stop had returned", n), c)
 			}
 		}
@@ -1065,7 +1065,9 @@ func runFillConc(rep *vh.Report, env vh.Env, i int) {
 	}
 }
 
-// After Stop a loop goroutine may still take a tick that became ready together with the stop signal
-// (Go's select picks among ready cases at random), so "no periodic fill after Stop" holds only
-// eventually; a loop that has not stopped produces one fill per TTL without end.
-const postStopAllowance = 5
+// After Stop a loop goroutine may still take every tick that is ready together with the stop signal
+// (Go's select picks among ready cases at random). On a loaded machine one loop iteration takes longer
+// than a 5-20 ms TTL, a tick is then always pending and the number of fills after Stop is geometric
+// (observed: 6 and more in about 1/64 of the loops). "No periodic fill after Stop" therefore holds only
+// eventually; a loop that has not stopped produces fills without end and passes any allowance.
+const postStopAllowance = 20
